@@ -112,10 +112,11 @@ def h_wraps(eng, structs):
             else:
                 passed.append(mags[i])
         names = [f"p{i}" for i in range(n)]
-        src = "def f(" + ", ".join(names[:-1] + ([names[-1] + "=DEFAULT"] if form == "default" else [names[-1]])) + "):\n"
+        src = _signature(names, form)
         src += "    seen.append((" + ", ".join(names) + ",))\n"
         src += "    return " + ("(retv, retv)" if isinstance(ret, list) else "retv") + "\n"
         env = {"seen": seen, "retv": retv, "DEFAULT": passed[-1]}
+        env.update({f"DEFAULT{i}": v for i, v in enumerate(passed)})
         exec(src, env)  # noqa: S102 - generated signature
         f = env["f"]
         try:
@@ -169,12 +170,7 @@ def h_wraps(eng, structs):
                 else:
                     expected[i] = ("mag", mags[i])
         # call
-        if form == "positional":
-            call = lambda: wrapped(*passed)
-        elif form == "keyword":
-            call = lambda: wrapped(*passed[:-1], **{names[-1]: passed[-1]})
-        else:
-            call = lambda: wrapped(*passed[:-1])
+        call = lambda: _call(wrapped, names, passed, form)
         try:
             result = call()
         except DimensionalityError:
@@ -212,6 +208,36 @@ def h_wraps(eng, structs):
             gotu = {k: (v.c if hasattr(v, "c") else Fraction(v)) for k, v in rv._units.items()}
             eng.prove(gotu == {k: Fraction(v) for k, v in want.items()}, f"{tag}:ret{j}-units")
             eng.prove(Eq(rv.magnitude, retv), f"{tag}:ret{j}-magnitude")
+
+
+def _signature(names, form):
+    """positional/keyword: plain parameters; default: the last one has a default; kw-skip: every
+    parameter has a default (only the last is passed, by keyword)"""
+    if form == "default":
+        params = names[:-1] + [names[-1] + "=DEFAULT"]
+    elif form == "kw-skip":
+        params = [f"{nm}=DEFAULT{i}" for i, nm in enumerate(names)]
+    else:
+        params = list(names)
+    return "def f(" + ", ".join(params) + "):\n"
+
+
+def _call(wrapped, names, passed, form):
+    if form == "positional":
+        return wrapped(*passed)
+    if form == "keyword":
+        return wrapped(*passed[:-1], **{names[-1]: passed[-1]})
+    if form == "default":
+        return wrapped(*passed[:-1])
+    if form == "kw-reversed":
+        # every argument by keyword, written in the reverse of the signature order
+        return wrapped(**{nm: v for nm, v in reversed(list(zip(names, passed)))})
+    if form == "kw-mixed":
+        # first positional, the others by keyword in reverse order
+        return wrapped(passed[0], **{nm: v for nm, v in reversed(list(zip(names[1:], passed[1:])))})
+    if form == "kw-skip":
+        return wrapped(**{names[-1]: passed[-1]})
+    raise AssertionError(form)
 
 
 def real_ret_item(ureg, r):
@@ -256,7 +282,8 @@ def h_check(eng, dims, units, form):
     xs = [eng.real(f"x{i}") for i in range(n)]
     args = [ureg.Quantity(x, u) if u is not None else x for x, u in zip(xs, units)]
     env = {"DEFAULT": args[-1]}
-    exec("def f(" + ", ".join(names[:-1] + ([names[-1] + "=DEFAULT"] if form == "default" else [names[-1]])) + "):\n    return (" + ", ".join(names) + ",)\n", env)  # noqa: S102
+    env.update({f"DEFAULT{i}": v for i, v in enumerate(args)})
+    exec(_signature(names, form) + "    return (" + ", ".join(names) + ",)\n", env)  # noqa: S102
     wrapped = ureg.check(*dims)(env["f"])
     d = __import__("pvlib.ref.refdefs", fromlist=["x"]).default()
     expect_ok = True
@@ -268,12 +295,7 @@ def h_check(eng, dims, units, form):
         if {k: Fraction(v) for k, v in want.items()} != {k: Fraction(v) for k, v in have.items()}:
             expect_ok = False
     try:
-        if form == "positional":
-            r = wrapped(*args)
-        elif form == "keyword":
-            r = wrapped(*args[:-1], **{names[-1]: args[-1]})
-        else:
-            r = wrapped(*args[:-1])
+        r = _call(wrapped, names, args, form)
         ok = True
     except DimensionalityError:
         ok = False
@@ -321,8 +343,8 @@ def _structs(tier, seed):
                 # code because a UnitsContainer is not a dict -- noted in DESIGN.md)
                 continue
             defs = Oracle(list(specs)).defs
-            forms = ["positional", "keyword", "default"]
-            for form in forms if (big or n < 3) else [rnd.choice(forms)]:
+            forms = ["positional", "keyword", "default", "kw-reversed", "kw-mixed", "kw-skip"]
+            for form in forms if (big or n < 3) else rnd.sample(forms, 2):
                 for strict in (True, False):
                     # argument kinds
                     variants = []
@@ -360,7 +382,7 @@ def cases(tier, seed):
                (["[length] / [time]", "[energy]"], ["knot", "calorie"]), (["[length] / [time]", "[energy]"], ["knot", "watt"]), (["[area]"], ["acre"]), (["[area]"], ["liter"]), (["[length]"], [None]),
                ([""], ["meter"]), ([""], ["radian"]), ([""], [None]), (["[length]", ""], ["inch", "second"])]  # fmt: skip
     for dims, units in dimsets:
-        for form in ("positional", "keyword", "default"):
+        for form in ("positional", "keyword", "default", "kw-reversed", "kw-mixed", "kw-skip"):
             out.append(Case("H17.check", f"{dims}:{units}:{form}", M, "h_check", {"dims": dims, "units": units, "form": form}, validate=1))
     out.append(Case("H17.check", "with_context", M, "h_with_context", {}, validate=1))
     return out
